@@ -120,6 +120,39 @@ fn limit_scenario(c: &mut Ctx) {
             c.closure(&a, if verified { "verified_merge" } else { "merge" });
         }
     }
+    // overlapping replicas whose sizes sum to more than the limit while their union stays below it
+    {
+        let ops = mint(900);
+        let (lo, hi) = (c.cx.rng.gen_range(200..400), c.cx.rng.gen_range(500..700));
+        let (mut a, mut b) = (base.clone(), base.clone());
+        for op in &ops[..hi] {
+            let _ = a.add_op(op.clone());
+        }
+        for op in &ops[lo..] {
+            let _ = b.add_op(op.clone());
+        }
+        for verified in [false, true] {
+            c.cx.eval();
+            c.cx.count("limit:overlap-merges");
+            let mut aa = a.clone();
+            let self_copy = a.clone();
+            let r0 = if verified { aa.verified_merge(&self_copy) } else { aa.merge(&self_copy) };
+            if r0.is_err() || aa.ops() != a.ops() {
+                c.cx.violation("merge-not-idempotent", format!("a replica of {} ops merged with a copy of itself: {r0:?}", a.ops().len()), json!({"verified": verified}));
+            }
+            let (mut ab, mut ba) = (a.clone(), b.clone());
+            let (r1, r2) = if verified { (ab.verified_merge(&b), ba.verified_merge(&a)) } else { (ab.merge(&b), ba.merge(&a)) };
+            if r1.is_err() || r2.is_err() || ab.ops() != ba.ops() || ab.ops().len() != 900 {
+                c.cx.violation(
+                    "merge-of-overlapping-replicas-failed",
+                    format!("replicas of {} and {} ops whose union is 900 (< limit): a+b={r1:?} b+a={r2:?}, sizes {} / {}", a.ops().len(), b.ops().len(), ab.ops().len(), ba.ops().len()),
+                    json!({"verified": verified}),
+                );
+            } else {
+                c.closure(&ab, "merge of overlapping replicas");
+            }
+        }
+    }
     c.cx.nontrivial(&("limit", c.cx.index, n1, accepted));
 }
 
@@ -151,7 +184,7 @@ impl Check for C06 {
         tier.pick(std::time::Duration::from_secs(150), std::time::Duration::from_secs(1500))
     }
     fn required_counters(&self, _tier: Tier) -> Vec<&'static str> {
-        vec!["closure-checks", "limit:merges", "ops:forged-signature", "ops:foreign-address", "ops:unauthorised-signer", "merges"]
+        vec!["closure-checks", "limit:merges", "limit:overlap-merges", "ops:forged-reparented", "ops:forged-signature", "ops:foreign-address", "ops:unauthorised-signer", "merges"]
     }
     fn run_case(&self, cx: &mut Cx) {
         let owner = gen::bls_sk(&mut cx.rng);
@@ -213,9 +246,24 @@ impl Check for C06 {
                     continue; // not judged for open registers
                 }
                 let mut raw = gen::RawOp::from_op(&op);
-                raw.signature = match c.cx.rng.gen_range(0..3) {
+                let variant = c.cx.rng.gen_range(0..5);
+                if variant >= 3 {
+                    // a genuine signed operation replayed with altered causal links (same value, source, signature)
+                    let mut other_children: BTreeSet<[u8; 32]> = raw.crdt_op.children.clone();
+                    if let Some(h) = hashes.choose(&mut c.cx.rng) {
+                        if !other_children.remove(h) {
+                            other_children.insert(*h);
+                        }
+                    } else {
+                        other_children.insert(c.cx.rng.gen());
+                    }
+                    raw.crdt_op.children = other_children;
+                    c.cx.count("ops:forged-reparented");
+                }
+                raw.signature = match variant {
                     0 => outsider.sign(b"something else"),
                     1 => signer.sign(b"other bytes"),
+                    3 | 4 => raw.signature.clone(),
                     _ => {
                         // signature of a different (valid) operation by the same signer
                         gen::RawOp::from_op(&gen::reg_op(addr, vec![9, 9, 9], BTreeSet::new(), signer)).signature
